@@ -226,7 +226,7 @@ func (e *kvElection) Start(ctx context.Context) error {
 		if err := e.attemptAcquire(); err != nil {
 			e.recordAcquireAttempt("failed")
 			e.recordFailure(classifyErrorType(err))
-			e.becomeFollower()
+			e.settleAsFollower()
 		}
 	}()
 
@@ -275,7 +275,7 @@ func (e *kvElection) attemptAcquireWithRetry(ctx context.Context) {
 					zap.Error(err),
 				)...,
 			)
-			e.becomeFollower()
+			e.settleAsFollower()
 			return
 		}
 
@@ -483,10 +483,22 @@ func (e *kvElection) attemptPriorityTakeover(payloadBytes []byte) error {
 	return nil
 }
 
+// settleAsFollower is what a failed acquisition round does: it moves a
+// candidate to FOLLOWER (and makes sure the watch loop runs) but leaves a
+// leader alone, so that a leftover or concurrent round of the same instance
+// never deposes it.
+func (e *kvElection) settleAsFollower() {
+	e.demote(true)
+}
+
 // becomeFollower clears the leadership claim and reports whether this call
 // cleared one (false when the instance was not leader, or is stopped), so that
 // callers run the demotion callback exactly once per lost term.
 func (e *kvElection) becomeFollower() bool {
+	return e.demote(false)
+}
+
+func (e *kvElection) demote(unlessLeader bool) bool {
 	e.mu.Lock()
 	defer e.mu.Unlock()
 
@@ -503,6 +515,9 @@ func (e *kvElection) becomeFollower() bool {
 	}
 
 	wasLeader := e.isLeader.Load()
+	if unlessLeader && wasLeader {
+		return false
+	}
 	e.isLeader.Store(false)
 	e.state.Store(StateFollower)
 	e.lastTransition.Store(time.Now())
